@@ -31,6 +31,7 @@ pub trait TemplateRegistry: Sized {
         // register common filters
         tera.register_filter("escape_js", escape_js_filter);
         tera.register_filter("add_types_prefix", add_types_prefix_filter);
+        tera.register_filter("ts_key", ts_key_filter);
 
         // register registry specific templates
         Self::register_templates(&mut tera)?;
@@ -60,6 +61,35 @@ fn escape_js_filter(value: &Value, _args: &HashMap<String, Value>) -> tera::Resu
         Ok(Value::String(escaped))
     } else {
         Err("escape_js filter expects a string".into())
+    }
+}
+
+/// Filter to render a property key: identifiers are emitted bare, anything else
+/// (`user-id`, `with space`, keys starting with a digit, ...) as a quoted string literal
+/// Usage: {{ field.serializedName | ts_key }}
+fn ts_key_filter(value: &Value, _args: &HashMap<String, Value>) -> tera::Result<Value> {
+    if let Some(key) = value.as_str() {
+        Ok(Value::String(ts_property_key(key)))
+    } else {
+        Err("ts_key filter expects a string".into())
+    }
+}
+
+/// Render a TypeScript/JavaScript property key
+pub fn ts_property_key(key: &str) -> String {
+    let mut chars = key.chars();
+    let is_identifier = match chars.next() {
+        Some(first) => {
+            (first.is_ascii_alphabetic() || first == '_' || first == '$')
+                && chars.all(|c| c.is_ascii_alphanumeric() || c == '_' || c == '$')
+        }
+        None => false,
+    };
+    if is_identifier {
+        key.to_string()
+    } else {
+        // A JSON string literal is a valid TypeScript string literal
+        serde_json::to_string(key).unwrap_or_else(|_| format!("\"{}\"", key))
     }
 }
 
